@@ -105,12 +105,18 @@ func cmdCheck(argv []string) int {
 	initSolve()
 	defer cleanupSolve()
 	var cons []*Contract
+	safetyOnly := map[string]bool{}
 	for _, c := range eng.ct.ByKey {
 		if c.Kind != "func" || c.Trusted || c.NoBody {
 			continue
 		}
 		if *prop != "all" && !hasTag(c.Serves, *prop) {
-			continue
+			if *prop != "C14" {
+				continue
+			}
+			// C14 (no request can crash a handler): the no-panic obligations of EVERY function
+			// under contract belong to it, whatever other properties the function serves
+			safetyOnly[c.Key] = true
 		}
 		if *fnFilter != "" && !strings.Contains(c.Key, *fnFilter) {
 			continue
@@ -143,6 +149,9 @@ func cmdCheck(argv []string) int {
 		n := 0
 		for _, o := range vc.obls {
 			if *prop != "all" && len(o.Tags) > 0 && !hasTag(o.Tags, *prop) {
+				continue
+			}
+			if safetyOnly[c.Key] && !strings.HasPrefix(o.Name, "safety:") && !strings.HasPrefix(o.Name, "cover:") {
 				continue
 			}
 			q := vc.QueryText(o)
